@@ -8,7 +8,8 @@ from .common import viol
 ID = "C15"
 LEVEL = "exploration"
 BATCH = 8
-RULE = ("Same COMPLETE configuration enumeration as C14 (every ET/DT/ES model tag + untagged x rated power class x "
+RULE = ("(A quarter of the UDP configurations: kept-alive socket with every refusal delivered twice; half of the DT "
+        "configurations: the meter request of the first poll lost with all retransmissions.)  " + "Same COMPLETE configuration enumeration as C14 (every ET/DT/ES model tag + untagged x rated power class x "
         "every combination of refused optional blocks x battery present/absent patterns over 3 calls; every fifth "
         "configuration additionally under loss within the retry budget).  Oracle: after read_device_info the first "
         "or the second read_runtime_data succeeds, the third too; whenever a call returns, set(result) == "
@@ -38,13 +39,28 @@ def exhaustive(tier):
 
 
 def make_case(tier, seed, index):
-    return configs.make_case(index, seed)
+    case = configs.make_case(index, seed)
+    if case["family"] != "ES" and case["transport"] == "udp" and index % 4 == 1:
+        # kept-alive UDP socket, and every refusal (exception frame) reaches the client twice: the copy arrives when
+        # the next request is already on its way
+        case["keep_alive"] = True
+        case["dup_exc"] = True
+    if case["family"] == "DT" and index % 2 == 0 and not case.get("lossy"):
+        # the meter request of the first poll gets no answer at all (all retransmissions lost)
+        case["fail_request"] = 1
+    return case
 
 
 def simplify(case):
     out = []
     if case.get("lossy"):
         out.append(dict(case, lossy=False))
+    if case.get("dup_exc"):
+        out.append(dict(case, dup_exc=False, keep_alive=False))
+    if case.get("fail_request") is not None:
+        c = dict(case)
+        c.pop("fail_request")
+        out.append(c)
     return out
 
 
